@@ -330,7 +330,14 @@ func guarded(f func() callResult) callResult {
 // junk pre-fills a destination so that dependence on its prior contents shows up.
 func junk(r *rand.Rand) *apd.Decimal {
 	d := new(apd.Decimal)
-	switch r.Intn(6) {
+	switch r.Intn(8) {
+	case 5: // finite, exponent beyond the package limits (left by another context, or by hand)
+		d.SetFinite(7, 0)
+		d.Exponent = 160000
+	case 6: // an infinity whose unused fields hold what an overflow left there
+		d.Form = apd.Infinite
+		d.Coeff.SetInt64(5)
+		d.Exponent = -170000
 	case 0:
 		d.Form = apd.NaN
 	case 1:
